@@ -259,6 +259,9 @@ package service
 //@   trace[C02,C06,this-direction-closes-target-read-only] each transport.StreamConn.CloseRead satisfies $recv == evres("transport.StreamDialer.DialStream", 0)
 //@   trace[C02,C18,waits-for-client-direction] exactly 1 recv when evres("transport.StreamDialer.DialStream", 1) == nil
 //@   trace[C15,dial-failure-status] each transport.StreamDialer.DialStream satisfies $res1 != nil ==> result != nil
+//@   trace[C15,client-relay-failure-status] each recv satisfies $res0 != nil ==> result != nil && result.Status == "ERR_RELAY_CLIENT"
+//@   trace[C15,target-relay-failure-status] each io.Copy satisfies $res1 != nil && evres("recv", 0) == nil ==> result != nil && result.Status == "ERR_RELAY_TARGET"
+//@   trace[C15,clean-relay-is-ok] each io.Copy satisfies $res1 == nil && evres("recv", 0) == nil ==> result == nil
 //@   trace[C02,target-closed-at-end] exactly 1 transport.StreamConn.Close when evres("transport.StreamDialer.DialStream", 1) == nil
 //@   trace[C02,one-relay-goroutine] exactly 1 go:service.proxyConnection$1 when evres("transport.StreamDialer.DialStream", 1) == nil
 //@   trace[C05,one-dial] exactly 1 transport.StreamDialer.DialStream
